@@ -78,7 +78,7 @@ func (boltkv *BoltKV) DeletePrefix(id []byte) error {
 		b := tx.Bucket(graphBucket)
 		odel := make([][]byte, 0, 100)
 		c := b.Cursor()
-		for k, _ := c.Seek([]byte(id)); bytes.HasPrefix(k, []byte(id)); k, _ = c.Next() {
+		for k, _ := c.Seek([]byte(id)); k != nil && bytes.HasPrefix(k, []byte(id)); k, _ = c.Next() {
 			odel = append(odel, k)
 		}
 		for _, okey := range odel {
